@@ -44,7 +44,7 @@ def iterates (tab : Array String) (start : Nat) : List Nat := Id.run do
 def verdict (start table impl : String) : String :=
   let tab := ((table.splitOn " ").filter (· ≠ "")).toArray
   let (o, _) := expected tab start.toNat!
-  let st (i : Nat) := hex4 (0x61 + i)
+  let st (i : Nat) := fmtStr (List.replicate (i + 1) 0x61)
   let want := match o with
     | .ok x => "ok:" ++ st x
     | .ruleErr t => t
